@@ -180,6 +180,13 @@ class OrderedMultiDict(dict):
         self.clear()
         self.update_extend(state)
 
+    def __reduce__(self):
+        # The default reduction of a dict subclass also emits
+        # self.items() (one value per key), which copy.copy() and
+        # copy.deepcopy() replay on top of the state, and it skips
+        # __setstate__ for an empty state under pickle protocols 0/1.
+        return (self.__class__, (), self.__getstate__())
+
     def _clear_ll(self):
         try:
             _map = self._map
